@@ -386,6 +386,15 @@ def main(tier: str) -> int:
     n_obl, n_done, broken = C.obligations_from(build, PROOF_FILES)
     if terr:
         broken = [f"CLI table extraction: {terr}"] + broken
+    searching_with_snapshot = False
+    if not model_ok:
+        # the tables cannot be regenerated (or no longer compile): the obligation is broken whatever follows.  For the SEARCH
+        # of a failing input, judge rattr against the last tables that were extracted from the unchanged tree (a committed
+        # snapshot); what the specification rejects under those tables is reported with the input as replay.
+        snap = (C.VERIF / "harness" / "cli_table_snapshot.v.txt").read_text()
+        (C.COQ / "gen" / "CliTable.v").write_text(snap)
+        build2 = C.coq_build(MODEL_FILES)
+        searching_with_snapshot = not any(t in build2.failed for t in MODEL_FILES)
 
     rt.set_config()
     dests = [d for _, _, d, _, _ in OPTIONS] + ["force_refresh_cache"]
@@ -396,7 +405,9 @@ def main(tier: str) -> int:
         terms.append(c_case(conf, cli, obs, dests))
         metas.append({"toml": {k: repr(v) for k, v in conf.items()}, "cli": cli,
                       "rattr_namespace": None if obs is None else {d: repr(obs.get(d)) for d in dests}})
-    codes = C.coq_eval_codes("c20", HEADER, "c20_case", "c20_code", terms, shard=400) if model_ok else [0] * len(terms)
+    codes = C.coq_eval_codes("c20", HEADER, "c20_case", "c20_code", terms, shard=400) if (model_ok or searching_with_snapshot) else [0] * len(terms)
+    if searching_with_snapshot:
+        (C.COQ / "gen" / "CliTable.v").unlink(missing_ok=True)       # regenerated from the source on the next run
     corr_fail = [m for c, m in zip(codes, metas) if c & 1]
     spec_fail = [(c, m) for c, m in zip(codes, metas) if c & 2]
     listed = {f.get("class") for f in C.known_findings(PROP)}
